@@ -13,7 +13,7 @@ CEL_BASED = {"Cylinder", "Circle", "CylinderSegment"}
 
 
 def palette(magpy, r):
-    """14 real sources, ids 1..14 (classes must agree with MC_Batch!ClassOf). All sit around the origin so that the
+    """16 real sources, ids 1..16 (classes must agree with MC_Batch!ClassOf). All sit around the origin so that the
     shared observers include points inside most bodies; paths of length 1..3 with generic orientations."""
     u = lambda a, b: r.uniform(a, b)
 
@@ -41,13 +41,15 @@ def palette(magpy, r):
         11: m.misc.Triangle(vertices=[(-1, -1, 0.45), (1.2, -1, 0.45), (0, 1.3, 0.45)], polarization=(0.2, 0.2, 0.2), **pose(1)),
         12: m.current.Circle(diameter=1.7, current=1.3, **pose(3)),
         13: m.misc.Dipole(moment=(0.3, 0.1, 0.5), position=(0.6, 0.7, -0.8)),
+        16: m.current.Polyline(vertices=[(-0.8, 0.2, -0.3), (0.9, 0.1, -0.3), (0.7, 1.1, 0.2), (-0.9, 0.8, 0.4), (-0.8, 0.2, -0.3)], current=-2.1, **pose(2)),
+        15: m.magnet.TriangularMesh(vertices=(CUBE_V - 0.5) * np.array([2.0, 1.2, 0.8]), faces=CUBE_F, polarization=(-0.2, 0.25, 0.1), **pose(1)),
         14: m.magnet.Tetrahedron(vertices=[(-0.6, -0.5, -0.4), (0.9, -0.4, -0.5), (0.0, 0.8, -0.4), (0.1, 0.0, 0.9)], polarization=(-0.2, 0.1, 0.4), **pose(2)),
     }
     return pal
 
 
 # a point strictly inside palette entry i but outside most others (local = global: static copies at the first pose, tiny offsets)
-INSIDE = {1: (0.5, 0.45, 0.4), 2: (0.1, 0.05, 0.6), 5: (0.5, 0.2, 0.02), 6: (0.1, 0.2, 0.1), 7: (0.4, 0.5, 0.3), 8: (0.3, 0.3, 0.3), 9: (0.2, 0.2, 0.3),
+INSIDE = {15: (0.8, 0.1, 0.1), 1: (0.5, 0.45, 0.5), 2: (0.1, 0.05, 0.6), 5: (0.5, 0.2, 0.02), 6: (0.1, 0.2, 0.1), 7: (0.4, 0.5, 0.3), 8: (0.3, 0.3, 0.3), 9: (0.2, 0.2, 0.3),
           10: (0.05, 0.05, 0.05), 14: (0.1, 0.0, 0.0)}
 
 
@@ -57,9 +59,10 @@ SURFACE = {5: (1.0, 0.0, 0.0), 6: (0.8, 0.0, 0.0), 7: (0.5, 0.1, 0.1), 8: (0.6, 
 
 def sensors_for(magpy):
     # pixels: strictly inside most bodies, inside the open cylinder segment, near faces, outside, far
-    pix = np.array([[0.1, 0.05, 0.08], [0.5, 0.2, 0.02], [0.3, -0.35, 0.2], [1.6, 0.4, 0.3], [-2.0, 3.0, 1.5], [8.0, -6.0, 7.0]])
+    pix = np.array([[0.1, 0.05, 0.08], [0.5, 0.2, 0.02], [0.3, -0.35, 0.2], [1.6, 0.4, 0.3], [-2.0, 3.0, 1.5], [8.0, -6.0, 7.0],
+                    [0.4, 0.5, 0.5], [0.85, 0.1, -0.1]])
     s1 = magpy.Sensor(pixel=pix)
-    s2 = magpy.Sensor(pixel=pix[:6] * np.array([1, -1, 1]) + 0.01, position=[(0.02, 0.0, 0.0), (0.0, 0.03, 0.01)],
+    s2 = magpy.Sensor(pixel=pix * np.array([1, -1, 1]) + 0.01, position=[(0.02, 0.0, 0.0), (0.0, 0.03, 0.01)],
                       orientation=R.from_rotvec([(0, 0, 0.05), (0.04, 0, 0)]))
     return [s1, s2]
 
@@ -115,20 +118,27 @@ def batch_events(args):
                       "same": not (classes & CEL_BASED), "fin": bool(np.isfinite(T).all())}
                 f.write(json.dumps(ev, separators=(",", ":")) + "\n")
                 n += 1
-                # superposition: sumup over the same list
+                # superposition (C05): the summed-up call and the collection equal the sum of the SINGLE-source calls
                 if len(arr) > 1 and field in "BH":
+                    Mx = T.shape[1]
+
+                    def alone(i):
+                        a = np.asarray(fn(pal[i], sens, squeeze=False), dtype=float)[0]           # (M_i, K, P, 3); shorter paths are static beyond their end
+                        if a.shape[0] < Mx:
+                            a = np.concatenate([a, np.repeat(a[-1:], Mx - a.shape[0], axis=0)])
+                        return a.reshape(-1, 3)
                     whole = np.asarray(fn(srcs, sens, sumup=True, squeeze=False), dtype=float).reshape(-1, 3)
-                    parts = [T[l].reshape(-1, 3) for l in range(len(arr))]
+                    parts = [alone(i) for i in arr]
                     s2 = quant.gross(whole, *parts)
-                    ev = {"tid": tid0 + n, "kind": "super", "what": "sumup", "field": field, "whole": quant.q12(whole, s2), "parts": [quant.q12(p, s2) for p in parts],
-                          "fin": bool(np.isfinite(whole).all())}
+                    ev = {"tid": tid0 + n, "kind": "super", "what": "sumup:" + "+".join(type(pal[i]).__name__ for i in arr), "field": field, "whole": quant.q12(whole, s2),
+                          "parts": [quant.q12(p, s2) for p in parts], "fin": bool(np.isfinite(whole).all())}
                     f.write(json.dumps(ev, separators=(",", ":")) + "\n")
                     n += 1
-                    coll = magpy.Collection(*[x.copy() for x in dict.fromkeys(srcs)])
                     if len(set(arr)) == len(arr):
+                        coll = magpy.Collection(*[pal[i].copy() for i in arr])
                         wc = np.asarray(fn(coll, sens, squeeze=False), dtype=float).reshape(-1, 3)
-                        ev = {"tid": tid0 + n, "kind": "super", "what": "collection", "field": field, "whole": quant.q12(wc, s2), "parts": [quant.q12(p, s2) for p in parts],
-                              "fin": bool(np.isfinite(wc).all())}
+                        ev = {"tid": tid0 + n, "kind": "super", "what": "collection:" + "+".join(type(pal[i]).__name__ for i in arr), "field": field, "whole": quant.q12(wc, s2),
+                              "parts": [quant.q12(p, s2) for p in parts], "fin": bool(np.isfinite(wc).all())}
                         f.write(json.dumps(ev, separators=(",", ":")) + "\n")
                         n += 1
             else:
